@@ -218,7 +218,7 @@ func Gen(t *rapid.T) *Case {
 	c := &Case{S: e.S.Name, D: e.D.Name}
 	c.Pad = kit.GenPad(t)
 	c.Fix = rapid.IntRange(0, 3).Draw(t, "fix")
-	c.Ch = rapid.SampledFrom([]int{1, 1, 2, 3, 5, 8}).Draw(t, "ch")
+	c.Ch = kit.GenNumCh(t, c.Pad)
 	n := rapid.IntRange(1, 24).Draw(t, "n")
 	base := kit.GenAmp(t, e.S.Bits, BAmps[e.S.Bits])
 	for i := 0; i < n; i++ {
